@@ -3,12 +3,16 @@ package c02
 
 import (
 	"encoding/json"
+	"errors"
 	"fmt"
 	"math"
 	"math/rand"
+	"sync"
+	"time"
 
 	"github.com/bitcoin-sv/block-headers-service/config"
 	"github.com/bitcoin-sv/block-headers-service/domains"
+	"github.com/bitcoin-sv/block-headers-service/verifharness/deco"
 	"github.com/bitcoin-sv/block-headers-service/verifharness/ev"
 	"github.com/bitcoin-sv/block-headers-service/verifharness/gen"
 	"github.com/bitcoin-sv/block-headers-service/verifharness/mb"
@@ -99,6 +103,114 @@ type env struct {
 	// one service stack per configured excess, built over the same store: the excess is given to the service
 	// constructors the way a start-up with that configuration does (not patched into a running service)
 	byExcess map[int]*rig.Stack
+	// faults and interleavings at the repository seam of the ingesting stack
+	failRelabel bool // the next UpdateState fails (armed by the ingesting goroutine for one submission)
+	relabelHit  bool
+	pairMu      sync.Mutex
+	pairOn      bool
+	pairArrived int
+	pairWaiting bool
+	pairBoth    chan struct{}
+}
+
+func (e *env) hooks() *deco.Hooks {
+	return &deco.Hooks{Before: func(op string, _ bool, _ string) error {
+		if op == "UpdateState" && e.failRelabel {
+			e.failRelabel, e.relabelHit = false, true
+			return errors.New("verif: injected relabel failure")
+		}
+		if op == "GetTip" || op == "GetHeaderByHash" {
+			e.rendezvous()
+		}
+		return nil
+	}}
+}
+
+// rendezvous: while two competing blocks are being submitted at once, the first repository read of the first submitter
+// waits (1.5 ms at most) for the second submitter's, so that both classify their block against the same tip when nothing
+// orders them.
+func (e *env) rendezvous() {
+	e.pairMu.Lock()
+	if !e.pairOn || e.pairArrived >= 2 {
+		e.pairMu.Unlock()
+		return
+	}
+	e.pairArrived++
+	both := e.pairBoth
+	if e.pairArrived == 2 {
+		if e.pairWaiting {
+			close(both)
+		}
+		e.pairMu.Unlock()
+		return
+	}
+	e.pairWaiting = true
+	e.pairMu.Unlock()
+	select {
+	case <-both:
+	case <-time.After(1500 * time.Microsecond):
+	}
+	e.pairMu.Lock()
+	e.pairWaiting = false
+	e.pairMu.Unlock()
+}
+
+// competingPair submits two different children of the tip at the same moment and asks about both merkle roots at that
+// height: whatever the order, exactly one of them is on the longest chain.
+func (e *env) competingPair(caseID string, rng *rand.Rand, m *refmodel.Model, counter *int) bool {
+	r := e.r
+	mk := func() refmodel.Hdr {
+		*counter++
+		h := refmodel.Hdr{Prev: m.Best().Hash, Bits: gen.BitsNormal}
+		gen.Fields(rng, &h, false, 100000+*counter)
+		return h
+	}
+	a, b := mk(), mk()
+	e.pairMu.Lock()
+	e.pairOn, e.pairArrived, e.pairWaiting, e.pairBoth = true, 0, false, make(chan struct{})
+	e.pairMu.Unlock()
+	var wg sync.WaitGroup
+	var ra, rb rig.AddResult
+	wg.Add(2)
+	go func() { defer wg.Done(); ra = e.st.Add(a) }()
+	go func() { defer wg.Done(); rb = e.st.Add(b) }()
+	wg.Wait()
+	e.pairMu.Lock()
+	e.pairOn = false
+	e.pairMu.Unlock()
+	if ra.Panic != nil || rb.Panic != nil || ra.Err != nil || rb.Err != nil {
+		r.Count("histories_cut_short_by_ingest_divergence", 1)
+		return false
+	}
+	height := m.Best().Height + 1
+	req := []item{{Root: a.Merkle.String(), Height: height, class: "competing-block"}, {Root: b.Merkle.String(), Height: height, class: "competing-block"}}
+	bb, _ := json.Marshal(req)
+	w := e.byExcess[6].POST("/api/v1/chain/merkleroot/verify", bb)
+	var rs resp
+	if w.Code != 200 || mb.DecodeOne(w.Body.Bytes(), &rs) != nil || len(rs.Confirmations) != 2 {
+		r.Violate("competing-pair|http", fmt.Sprintf("POST verify -> %d %s", w.Code, w.Body.String()), caseID, nil)
+		return false
+	}
+	confirmed := 0
+	for _, c := range rs.Confirmations {
+		if c.Confirmation == refmodel.Confirmed {
+			confirmed++
+		}
+	}
+	r.Count("competing_pairs_submitted_at_once", 1)
+	if confirmed != 1 {
+		r.Violate(fmt.Sprintf("competing-pair|confirmed=%d", confirmed), fmt.Sprintf("two competing blocks at height %d were submitted at the same moment; %d of their two merkle roots are CONFIRMED at that height (exactly one block can be on the longest chain)", height, confirmed), caseID,
+			map[string]any{"blocks_hex": []string{a.Hex(), b.Hex()}, "verdicts": rs.Confirmations})
+		return false
+	}
+	// the model follows the store's order
+	first, second := a, b
+	if rs.Confirmations[1].Confirmation == refmodel.Confirmed {
+		first, second = b, a
+	}
+	m.Submit(first)
+	m.Submit(second)
+	return true
 }
 
 func sigOf(it item, want, got string) string {
@@ -241,20 +353,23 @@ func (e *env) deepReorg(caseID string, d int) {
 }
 
 func body(r *ev.Run) {
-	r.Rule("states = every reorganisation point (and every 10th step, and the end) of seeded random histories with forks, stale blocks sharing heights with longest blocks, orphans, duplicate merkle roots across branches; per state several request lists (length 1..50, with duplicates) drawn from {every stored (root, own height / height+-1), non-longest roots at the tip height, unknown / tip / genesis roots at heights -1, 0, 1, tip-1..tip+excess+2, MaxInt32, MinInt32} for excess in {0,1,6,100,MaxInt32,2^31,2^40}; plus reorganisations over 501 heights (thorough: 499..2001) after which every block of both branches is asked about; sent through POST /api/v1/chain/merkleroot/verify and Merkleroots.GetMerkleRootsConfirmations. evaluations = request lists; distinct = distinct (item class, expected verdict) pairs observed; non-trivial = all.")
+	r.Rule("states = every reorganisation point (and every 10th step, and the end) of seeded random histories with forks, stale blocks sharing heights with longest blocks, orphans, duplicate merkle roots across branches; per state several request lists (length 1..50, with duplicates) drawn from {every stored (root, own height / height+-1), non-longest roots at the tip height, unknown / tip / genesis roots at heights -1, 0, 1, tip-1..tip+excess+2, MaxInt32, MinInt32} for excess in {0,1,6,100,MaxInt32,2^31,2^40}; plus reorganisations over 501 heights (thorough: 499..2001) after which every block of both branches is asked about; ; every 25th step two competing children of the tip are submitted at the same moment (exactly one of their roots may be CONFIRMED); one submission in ten that reorganises has its first relabelling statement fail (verdicts must match what the service answered); sent through POST /api/v1/chain/merkleroot/verify and Merkleroots.GetMerkleRootsConfirmations. evaluations = request lists; distinct = distinct (item class, expected verdict) pairs observed; non-trivial = all.")
 	r.Assume("merkle roots compared in canonical lower-case hex", "excess values 0, 1, 6, 100, MaxInt32, 2^31, 2^40", "reference model transcribes the statement")
 	r.Require("verdicts_CONFIRMED", 200)
 	r.Require("verdicts_UNABLE_TO_VERIFY", 50)
 	r.Require("verdicts_INVALID", 200)
 	r.Require("states_after_reorg", 20)
+	r.Require("competing_pairs_submitted_at_once", 50)
+	r.Require("reorganisations_with_a_failing_first_relabel", 10)
 	mb.ForbiddenHeaders()
-	st, err := rig.New(rig.Options{Dir: r.Scratch})
+	e := &env{r: r, byExcess: map[int]*rig.Stack{}}
+	st, err := rig.New(rig.Options{Dir: r.Scratch, WrapHeaders: deco.Wrap(e.hooks())})
 	if err != nil {
 		r.Violate("harness|rig", err.Error(), "", nil)
 		return
 	}
 	defer st.Destroy()
-	e := &env{r: r, st: st, byExcess: map[int]*rig.Stack{}}
+	e.st = st
 	for _, x := range excesses {
 		x := x
 		e.byExcess[x] = st.Sibling(func(c *config.AppConfig) { c.MerkleRoot.MaxBlockHeightExcess = x })
@@ -288,7 +403,42 @@ func body(r *ev.Run) {
 				return
 			}
 			m := mb.NewModel()
+			pairCounter := 0
 			for k, h := range hist.Hdrs {
+				// one submission in ten has the first relabelling statement of its reorganisation (if it is one) fail
+				if rng.Intn(10) == 0 {
+					probe := m.Clone()
+					if _, _, reorg := probe.Submit(h); reorg {
+						e.failRelabel, e.relabelHit = true, false
+						res := st.Add(h)
+						e.failRelabel = false
+						if e.relabelHit {
+							r.Count("reorganisations_with_a_failing_first_relabel", 1)
+							if res.Panic != nil {
+								r.Count("histories_cut_short_by_ingest_divergence", 1)
+								return
+							}
+							if res.Err == nil {
+								m.Submit(h) // the service says it stored the header: then the reorganisation happened
+							}
+							// (refused: nothing may have changed; the verdicts are those of the state before)
+							if !e.verifyLists(caseID, rng, m, hist, k, 1) {
+								return
+							}
+							if res.Err == nil {
+								continue
+							}
+						} else if res.Err == nil {
+							m.Submit(h)
+							continue
+						}
+					}
+				}
+				if k%25 == 24 && m.Best().Height > 0 {
+					if !e.competingPair(caseID, rng, m, &pairCounter) {
+						return
+					}
+				}
 				si := mb.Step(st, m, h)
 				if si.Res.Panic != nil || si.Res.Code() != mb.WantCode(si.Outcome) {
 					r.Count("histories_cut_short_by_ingest_divergence", 1) // C01's business
